@@ -166,8 +166,13 @@ def judge(np, w, t, logw_full, case, got, raised, calls):
         return [("replay:raised", f"posterior() raised {got!r}")]
     v = []
     want_calls = 1 if case["flags"]["resample"] else 0
-    if calls != want_calls:
-        v.append(("replay:rng-draws", f"{calls} uniform draws consumed, expected {want_calls}"))
+    # The specification resamples with the systematic comb driven by ONE uniform (the scripted one).  If the code did not consume the
+    # scripted uniform exactly once it resamples some other way: WHICH records come back is then not prescribed by C12 and cannot be
+    # scripted; the outcome is judged on what C12 states (rows are whole stored records of positive weight, uniform weights, aligned
+    # log-likelihoods / blobs / log-weights, the documented length).
+    free = bool(case["flags"]["resample"] and calls != want_calls)
+    if calls != want_calls and not free:
+        v.append(("replay:rng-draws", f"{calls} uniform draws consumed by a call that does not resample"))
     if not isinstance(got, tuple) or len(got) != len(out):
         return v + [("replay:arity", f"returned {len(got) if isinstance(got, tuple) else type(got).__name__} values, documented {list(out)}")]
     if any(g is None for g in got):
@@ -184,6 +189,19 @@ def judge(np, w, t, logw_full, case, got, raised, calls):
         ids.append(hit[0] if hit else 0)
     if 0 in ids:
         return v + [("replay:x-rows", f"a returned sample row is not the x row of any stored record: {gx.tolist()}")]
+    if free:
+        gw = res["weights"].astype(float)
+        if any(w[r - 1] <= 0 for r in ids):
+            v.append(("replay:x-rows", f"a record of zero weight was returned by posterior(resample=True): records {ids}"))
+        if not all(abs(gw[p] - 1.0 / n) <= TOL for p in range(n)):
+            v.append(("replay:weights", f"weights {gw.tolist()} after resampling, expected uniform 1/{n}"))
+        if not all(res["logl"][p] == t["logl"][ids[p] - 1] for p in range(n)):
+            v.append(("replay:logl-rows", f"logl rows {res['logl'].tolist()} are not those of the returned records {ids}"))
+        if "blobs" in res and not all(res["blobs"][p] == t["blobs"][ids[p] - 1] for p in range(n)):
+            v.append(("replay:blobs-rows", f"blob rows {res['blobs'].tolist()} are not those of the returned records {ids}"))
+        if "logw" in res and not all(abs(float(res["logw"][p]) - logw_full[ids[p] - 1]) <= TOL for p in range(n)):
+            v.append(("replay:logw-rows", f"log-weight rows are not those of the returned records {ids}"))
+        return v
     if ids != list(xs):
         return v + [("replay:x-rows", f"returned samples are records {ids}, expected {list(xs)}")]
     gw = res["weights"].astype(float)
